@@ -117,6 +117,34 @@ func propC14(a *Analysis, r *Registry) {
 				}
 				st := in.(*ssa.Store)
 				key := ""
+				// the counter chosen first and incremented once through a pointer (`slot := &h.high;
+				// … *slot++`): one increment per way the pointer is chosen, under the condition of
+				// that choice
+				if ph, isPhi := st.Addr.(*ssa.Phi); isPhi && ph.Block() == st.Block() {
+					for k, pb := range ph.Block().Preds {
+						if k >= len(ph.Edges) || !fc.Ctx.Reach[pb.Index] {
+							continue
+						}
+						pk := ""
+						switch ad := ph.Edges[k].(type) {
+						case *ssa.FieldAddr:
+							pk = "&fld:" + ad.X.Type().Underlying().(*types.Pointer).Elem().Underlying().(*types.Struct).Field(ad.Field).Name()
+						case *ssa.IndexAddr:
+							pk = "&idx"
+							e2 := X.EnvFor(add, "h", "x")
+							e2.Set("bin", binV, types.Typ[types.Int])
+							b.Eq("C-guard counters", addName+"/bins-slot", a.W.InstrPos(st), fc.Val(ad), e2, "addr(h."+bins+", bin)")
+						}
+						sp, ok := want[pk]
+						if !ok {
+							r.Fail("C-guard counters", addName+"/"+pk, a.W.InstrPos(st), "increment of something that is not one of the three counters Counts() returns")
+							continue
+						}
+						found[pk] = true
+						b.Eq("C-guard counters", addName+"/"+pk, a.W.InstrPos(st), X.S.And(fc.ReachCond(pb), fc.edgeCond(pb, ph.Block())), env, sp)
+					}
+					return
+				}
 				switch ad := st.Addr.(type) {
 				case *ssa.FieldAddr:
 					key = "&fld:" + ad.X.Type().Underlying().(*types.Pointer).Elem().Underlying().(*types.Struct).Field(ad.Field).Name()
